@@ -49,33 +49,7 @@ def write_tmp(text, suffix=".pddl", newline=None):
 # ---------------------------------------------------------------------------------------
 # numbers
 
-def snap(x, max_den=10 ** 4):
-    """float -> [n, d]: the closest small rational when the float is (within 1e-9 rel.) one;
-    None when it is not (callers then log an approximation)."""
-    if isinstance(x, bool):
-        raise TypeError("bool is not a number here")
-    fr = Fraction(x).limit_denominator(max_den)
-    if abs(float(fr) - float(x)) <= 1e-9 * max(1.0, abs(float(x))):
-        return [fr.numerator, fr.denominator]
-    return None
-
-
-INT_MAX = 2 ** 31 - 1
-
-
-def snap_or_approx(x):
-    """[n, d] with both inside 31 bits (TLC integers); [0, 0] marks a value that cannot be
-    rendered so (the specification treats it as too big to compute with)"""
-    try:
-        s = snap(x)
-        if s is None:
-            fr = Fraction(round(float(x) * 10 ** 6), 10 ** 6)
-            s = [fr.numerator, fr.denominator]
-    except (OverflowError, ValueError):     # inf / nan
-        return [0, 0]
-    if abs(s[0]) > INT_MAX or s[1] > INT_MAX:
-        return [0, 0]
-    return s
+from numsnap import snap, snap_or_approx, INT_MAX  # noqa: E402,F401
 
 
 # ---------------------------------------------------------------------------------------
@@ -173,7 +147,9 @@ def project_state_plain(tree):
             except ValueError:
                 bad.append(item)
                 continue
-            fl.append([item[1][0], list(item[1][1:]), val])
+            # 4th element: the exact value as the canonical text of the double (preservation properties
+            # compare it; the snapped rational is what arithmetic is judged with)
+            fl.append([item[1][0], list(item[1][1:]), val, repr(float(item[2]))])
         elif isinstance(item, list) and item and all(isinstance(x, str) for x in item):
             facts.append([item[0], list(item[1:])])
         else:
